@@ -696,6 +696,25 @@ class Seg:
             return
         if op == 'Call':
             return self.call(p, fr, ins, A, at, reg)
+        if op == 'Defer':
+            if 'invoke' in at:
+                raise Unsupported('deferred interface method call')
+            callee = self.val(p, fr, A[0])
+            dargs = tuple(self.val(p, fr, a) for a in A[1:])
+            if callee[0] != 'func' or has_term(dargs) or (INTRINSICS.get(callee[1]) is None):
+                raise Unsupported('defer of %r' % (callee,))
+            fr.statics['D!defers'] = tuple(fr.statics.get('D!defers', ())) + ((callee[1], dargs),)
+            nxt(); return
+        if op == 'RunDefers':
+            ds = tuple(fr.statics.get('D!defers', ()))
+            if not ds:
+                nxt(); return
+            name, dargs = ds[-1]
+            fr.statics['D!defers'] = ds[:-1]
+            idx = fr.idx
+            INTRINSICS[name](self, p, fr, list(dargs), None)
+            fr.idx = idx   # stay on RunDefers until the list is empty
+            return
         if op == 'Go':
             callee = self.val(p, fr, A[0])
             args = [self.val(p, fr, a) for a in A[1:]]
@@ -860,6 +879,10 @@ class Seg:
             return p.get(m.var('ctx.done', 'bool'))
         if ch[1] == 'timerC':
             return z3.And(p.get(m.var('timer.fired', 'bool')), z3.Not(p.get(m.var('timer.taken', 'bool'))))
+        if ch[1] == 'childdone':
+            return child_done(self, p)
+        if ch[1] == 'never':
+            return z3.BoolVal(False)
         raise Unsupported('receive in select from a program channel')
 
     def chan_do_recv(self, p, ch):
@@ -867,7 +890,7 @@ class Seg:
             p.set(self.m.var('timer.taken', 'bool'), z3.BoolVal(True))
 
     def send(self, p, fr, ch, val):
-        if not (isinstance(ch, tuple) and ch[0] == 'chan') or ch[1] in ('ctxdone', 'timerC'):
+        if not (isinstance(ch, tuple) and ch[0] == 'chan') or ch[1] in ('ctxdone', 'timerC', 'childdone', 'never'):
             raise Unsupported('send on %r' % (ch,))
         if self.before_visible(p, 'send'):
             self.cut(p); return
@@ -881,7 +904,7 @@ class Seg:
         if not (isinstance(ch, tuple) and ch[0] == 'chan'):
             raise Unsupported('receive from %r' % (ch,))
         m = self.m
-        if ch[1] in ('ctxdone', 'timerC'):
+        if ch[1] in ('ctxdone', 'timerC', 'childdone', 'never'):
             if self.before_visible(p, 'recv'):
                 self.cut(p); return
             p.guard.append(self.chan_recv_ready(p, ch))
@@ -1161,17 +1184,70 @@ def i_astore(seg, p, fr, args, reg):
     fr.idx += 1
 
 # ----- context, process, timer (mode wos) -----
-ERR_NIL, ERR_CTX, ERR_PROCDONE, ERR_WAIT = 0, 1, 2, 4
+ERR_NIL, ERR_CTX, ERR_PROCDONE, ERR_CANCELED, ERR_WAIT = 0, 1, 2, 3, 4
+
+def child_done(seg, p):
+    m = seg.m
+    own = z3.Or(p.get(m.var('child.fired', 'bool')), p.get(m.var('child.cancelled', 'bool')))
+    if m.cells.get('!childparent') == 'bg':
+        return own
+    return z3.Or(p.get(m.var('ctx.done', 'bool')), own)
 
 @intrinsic('invoke:Done')
 def i_ctxdone(seg, p, fr, args, reg):
-    seg.setreg(p, fr, reg, ('chan', 'ctxdone')); fr.idx += 1
+    c = args[0]
+    if c == ('ctx',):
+        seg.setreg(p, fr, reg, ('chan', 'ctxdone'))
+    elif c == ('ctx', 'child'):
+        seg.setreg(p, fr, reg, ('chan', 'childdone'))
+    elif c == ('ctx', 'bg'):
+        seg.setreg(p, fr, reg, ('chan', 'never'))
+    else:
+        raise Unsupported('Done of %r' % (c,))
+    fr.idx += 1
 
 @intrinsic('invoke:Err')
 def i_ctxerr(seg, p, fr, args, reg):
     if seg.before_visible(p, 'ctx.Err'):
         seg.cut(p); return
-    seg.setreg(p, fr, reg, z3.If(p.get(seg.m.var('ctx.done', 'bool')), BV(ERR_CTX), BV(ERR_NIL)))
+    m = seg.m
+    c = args[0]
+    if c == ('ctx',):
+        v = z3.If(p.get(m.var('ctx.done', 'bool')), BV(ERR_CTX), BV(ERR_NIL))
+    elif c == ('ctx', 'child'):
+        expired = z3.Or(p.get(m.var('child.fired', 'bool')), p.get(m.var('ctx.done', 'bool')) if m.cells.get('!childparent') != 'bg' else z3.BoolVal(False))
+        v = z3.If(expired, BV(ERR_CTX), z3.If(p.get(m.var('child.cancelled', 'bool')), BV(ERR_CANCELED), BV(ERR_NIL)))
+    elif c == ('ctx', 'bg'):
+        v = BV(ERR_NIL)
+    else:
+        raise Unsupported('Err of %r' % (c,))
+    seg.setreg(p, fr, reg, v)
+    fr.idx += 1
+
+@intrinsic('context.Background', 'context.TODO')
+def i_ctxbg(seg, p, fr, args, reg):
+    seg.setreg(p, fr, reg, ('ctx', 'bg')); fr.idx += 1
+
+@intrinsic('context.WithTimeout')
+def i_withtimeout(seg, p, fr, args, reg):
+    # a derived context: done when its parent is done, when its own timeout fires, or when cancelled
+    m = seg.m
+    parent = args[0]
+    if parent not in (('ctx',), ('ctx', 'bg')):
+        raise Unsupported('WithTimeout of %r' % (parent,))
+    kind = 'bg' if parent == ('ctx', 'bg') else 'run'
+    if m.cells.get('!childparent', kind) != kind:
+        raise Unsupported('two derived contexts with different parents')
+    m.cells['!childparent'] = kind
+    seg.flag(p, 'second-derived-context', p.get(m.var('child.created', 'bool')))
+    seg.flag(p, 'timer-with-nonpositive-delay', z3.Not(to_bv(args[1]) > BV(0)))
+    p.set(m.var('child.created', 'bool'), z3.BoolVal(True))
+    seg.setreg(p, fr, reg, (('ctx', 'child'), ('func', 'ctxcancel:child')))
+    fr.idx += 1
+
+@intrinsic('ctxcancel:child')
+def i_ctxcancel(seg, p, fr, args, reg):
+    p.set(seg.m.var('child.cancelled', 'bool'), z3.BoolVal(True))
     fr.idx += 1
 
 def deliver(seg, p, what):
@@ -1208,7 +1284,7 @@ def i_pkill(seg, p, fr, args, reg):
     m = seg.m
     seg.flag(p, 'kill-sent-before-the-deadline', z3.Not(p.get(m.var('ctx.done', 'bool'))))
     seg.flag(p, 'kill-without-interrupt-first', z3.Not(p.get(m.var('proc.intsent', 'bool'))))
-    seg.flag(p, 'kill-before-the-grace-period-elapsed', z3.Not(p.get(m.var('timer.fired', 'bool'))))
+    seg.flag(p, 'kill-before-the-grace-period-elapsed', z3.Not(z3.Or(p.get(m.var('timer.fired', 'bool')), p.get(m.var('child.fired', 'bool')))))
     waited = deliver(seg, p, 'killed')
     p.set(m.var('proc.killsent', 'bool'), z3.BoolVal(True))
     seg.setreg(p, fr, reg, z3.If(waited, BV(ERR_PROCDONE), BV(ERR_NIL)))
@@ -1461,7 +1537,7 @@ def compute_reach(m, seg, entries):
     return entry_locs
 
 # environment of waitOrStop: each process has one location and one guarded self-loop
-WOS_ENV = ['deadline-fires', 'process-exits-by-itself', 'process-exits-on-interrupt', 'process-dies-from-kill', 'timer-fires']
+WOS_ENV = ['deadline-fires', 'process-exits-by-itself', 'process-exits-on-interrupt', 'process-dies-from-kill', 'timer-fires', 'derived-timeout-fires']
 
 def add_env_threads(m, entry_locs):
     S = lambda n: m.tmpl(n)
@@ -1472,6 +1548,7 @@ def add_env_threads(m, entry_locs):
         'process-exits-on-interrupt': ([z3.Not(m.const('IGNORES_INTERRUPT')), S('proc.running'), S('proc.interrupted')], {'proc.running': F, 'proc.sigdeath': T}),
         'process-dies-from-kill': ([S('proc.running'), S('proc.killed')], {'proc.running': F, 'proc.sigdeath': T}),
         'timer-fires': ([S('timer.started'), z3.Not(S('timer.fired')), z3.Not(S('timer.stopped'))], {'timer.fired': T}),
+        'derived-timeout-fires': ([S('child.created'), z3.Not(S('child.fired')), z3.Not(S('child.cancelled'))], {'child.fired': T}),
     }
     for i, name in enumerate(WOS_ENV):
         tid = m.nprog + i
@@ -1639,7 +1716,7 @@ def main():
     if args.mode == 'wos':
         m.var('proc.running', 'bool', init=z3.BoolVal(True))
         for n in ('ctx.done', 'proc.waited', 'proc.interrupted', 'proc.killed', 'proc.hit', 'proc.sigok', 'proc.intsent', 'proc.killsent', 'proc.sigdeath',
-                  'timer.started', 'timer.fired', 'timer.taken', 'timer.stopped', 'returned'):
+                  'timer.started', 'timer.fired', 'timer.taken', 'timer.stopped', 'child.created', 'child.fired', 'child.cancelled', 'returned'):
             m.var(n, 'bool')
         m.var('proc.waiterr'); m.var('wos.err')
     try:
@@ -1737,7 +1814,14 @@ def main():
     elif args.mode == 'work':
         wit = z3.And(all_done(states[K]), states[K]['returned'], states[K]['count.0'] == BV(1))
     else:
-        wit = z3.And(all_done(states[K]), states[K]['inv.0'] == BV(1))
+        # a complete run in which the function ran exactly once for every key some goroutine calls Do on
+        parts = [all_done(states[K])]
+        for k in range(cfg['keys']):
+            called = z3.Or(*[m.const('CK_%d' % t, 'bv') == BV(k) for t in range(m.nthreads)])
+            parts.append(states[K]['inv.%d' % k] == z3.If(called, BV(1), BV(0)))
+        if not args.ck:
+            parts.append(states[K]['inv.0'] == BV(1))
+        wit = z3.And(*parts)
     rd, md = check('witness', wit, 'sat')
     # (e) data race on a plain location (cache): two different threads enabled at conflicting plain accesses
     re = z3.unsat
@@ -1824,7 +1908,7 @@ def describe(m, states, info, mdl, kind, K):
     final = {}
     last = states[min(len(trace), K)]
     for n in m.order:
-        if n in last and (n.startswith('err.') or n.startswith('count.') or n.startswith('ended.') or n.startswith('inv.') or n.startswith('proc.') or n.startswith('timer.') or n.startswith('ctx.') or n.startswith('wos.') or n in ('inflight', 'returned', 'vW.waiting', 'vW.todo.len', 'spawned')):
+        if n in last and (n.startswith('err.') or n.startswith('count.') or n.startswith('ended.') or n.startswith('inv.') or n.startswith('proc.') or n.startswith('child.') or n.startswith('timer.') or n.startswith('ctx.') or n.startswith('wos.') or n in ('inflight', 'returned', 'vW.waiting', 'vW.todo.len', 'spawned')):
             final[n] = str(ev(last[n]))
     if os.environ.get('TSYS_DEBUG'):
         final['ALL'] = {n: str(ev(last[n])) for n in m.order if n in last}
